@@ -568,6 +568,14 @@ def rule_dtype(rep, res, entry=None, rule="R-DTYPE"):
             continue
         v = ev.d["value"].flat()
         solved = bool(sol_ids(v))
+        if t.tag("dtype_copy") and not solved and not v.tag("floating"):
+            # a copy of a caller array receives values of ANOTHER input (arbitrary, generally fractional numbers)
+            other = sorted(o for o in v.data if o not in src and "@" not in o and "#" not in o and "|" not in o)
+            if other and not v.known and v.tag("kind") != "int" and not v.tag("boolarr"):
+                rep.violated(rule, "result buffer element type", where=ev.loc, construct=ev.text(), entry=entry, config=res.config,
+                             msg=f"values of `{', '.join(other)}` are stored into a copy of the caller's `{', '.join(sorted(src))}`, which keeps that "
+                                 f"array's dtype: with integer-typed `{', '.join(sorted(src))}` fractional values are truncated on the store")
+            continue
         if not solved and v.tag("floating"):
             rep.violated(rule, "result buffer element type", where=ev.loc, construct=ev.text(), entry=entry, config=res.config,
                          msg=f"a floating-point result (linear solve / quotient) is stored into a buffer whose dtype is inherited from the "
@@ -591,6 +599,8 @@ def objective_nf(obj):
     if obj is None or obj.tag("cvx") != "objective":
         return None, None
     sense = obj.tag("sense")
+    if not obj.tag("atom"):
+        return sense, None          # a join of two objectives: the expression is not a single tree
     expr = obj.tag("atom")[1][0]
     for _ in range(8):
         a = expr.tag("atom")
@@ -656,3 +666,21 @@ def rule_effect_free(rep, res, entry=None, allowed=(), rule="R-EFFECT"):
         rep.holds(rule, "query leaves the estimator unchanged", where=res.fn.loc(), construct=f"write set of {res.fn.name}",
                   entry=entry, config=res.config, msg="write set = ∅")
     return writes
+
+
+def near(ev):
+    """the event happens in the entry function itself or in a PRIVATE helper (`_name`) of the entry's own module / class that the
+    entry reaches: extracting a block of an entry point into a private helper does not move it out of sight"""
+    path = ev.path
+    if len(path) <= 1:
+        return True
+    def split(q):
+        mod, _, name = q.partition(":")
+        cls, _, fn = name.rpartition(".")
+        return mod, cls, fn
+    m0, c0, _ = split(path[0])
+    for q in path[1:]:
+        m, c, f = split(q)
+        if m != m0 or (c and c != c0) or not f.startswith("_") or f.startswith("__"):
+            return False
+    return True
